@@ -2,7 +2,7 @@
 From Coq Require Import List String Bool Arith.
 Import ListNotations.
 From ClasticV Require Import Base.Py Base.FSet Gen.Tables Model.Chain Model.Exec
-     Proofs.ChainProofs Proofs.ExecProofs Proofs.RouteProofs.
+     Proofs.ChainProofs Proofs.ExecProofs Proofs.RouteProofs Proofs.OnionProofs.
 Local Open Scope string_scope.
 Local Open Scope list_scope.
 
@@ -47,6 +47,54 @@ Theorem C03_merge_error :
   exists m, In m old /\ m_unique m = true /\ m_reorderable m = false.
 Proof. exact merge_into_error. Qed.
 Print Assumptions C03_merge_error.
+
+(* THE ONION.  For every accepted route (any middleware list, any signatures without positional-only
+   parameters), every script assignment (each function may raise before or after next, return a Response
+   early, swallow or replace what comes back) and every injected environment, the trace of a request is
+   exactly the documented onion [OnionProofs.onion]: request middlewares in list order around
+   process_request, whose own trace [proc_shape] is the endpoint onion followed - iff the endpoint side
+   produced a non-Response value - by the render onion; each layer's Leave carries its script applied to
+   exactly what its next() produced, after everything inside it has completed. *)
+Theorem C03_trace_is_onion :
+  forall c pl sc inj,
+  build_route c = Ok pl ->
+  no_posonly (r_mws c) (r_endpoint c) (r_render c) ->
+  (forall x, In x (base c) -> In x (map fst inj)) ->
+  onion sc (proc_shape sc (r_mws c)) (map fid_of (phase_funcs PhReq (r_mws c)) ++ [FProc])
+        (fst (run sc pl inj)) (snd (run sc pl inj)).
+Proof. exact route_trace_is_onion. Qed.
+Print Assumptions C03_trace_is_onion.
+
+(* whatever a layer's next() returns or raises is what the inner layers produced: when every enclosing
+   middleware passes through, the outcome of the chain is exactly the innermost function's outcome *)
+Theorem C03_transparent_next :
+  forall sc (Fin : fid -> outcome -> list event -> Prop) fs o tr,
+  onion sc Fin fs o tr ->
+  (forall ph i, In (FMw ph i) (removelast fs) -> s_mw sc ph i = MCallNext PPass) ->
+  exists f tr', Fin f o tr' /\ last fs f = f.
+Proof. exact transparent_chain. Qed.
+Print Assumptions C03_transparent_next.
+
+(* the render chain runs iff the endpoint side produced a non-Response value without raising; otherwise
+   the outcome of process_request is the endpoint side's outcome and nothing else is entered *)
+Theorem C03_render_skipped_iff :
+  forall sc ms f o tr,
+  proc_shape sc ms f o tr ->
+  exists o1 t1, onion sc (ep_shape sc) (map fid_of (phase_funcs PhEp ms) ++ [FEndpoint]) o1 t1 /\
+  ((exists tag, o1 = OVal false tag) <->
+   (exists t2, onion sc (rn_shape sc) (map fid_of (phase_funcs PhRn ms) ++ [FRender]) o t2 /\ tr = t1 ++ t2 /\ t2 <> [])) /\
+  ((forall tag, o1 <> OVal false tag) -> o = o1 /\ tr = t1).
+Proof. exact render_skipped_iff. Qed.
+Print Assumptions C03_render_skipped_iff.
+
+(* a layer that does not call next() cuts off everything inside it: the functions entered are a
+   non-empty PREFIX of the chain, in chain order *)
+Theorem C03_short_circuit :
+  forall sc (Fin : fid -> outcome -> list event -> Prop) fs o tr,
+  (forall f o tr, Fin f o tr -> entered tr = [f]) ->
+  onion sc Fin fs o tr -> exists k, entered tr = firstn k fs /\ 0 < k.
+Proof. exact onion_entered_prefix. Qed.
+Print Assumptions C03_short_circuit.
 
 (* the render phase runs iff the endpoint side produced a non-Response without raising *)
 Definition c3_mw (i : nat) : mw :=
